@@ -24,12 +24,16 @@ ERR = {'ChildNotValid': 'ChildNotValid', 'MaxChildLimitReached': 'MaxChildLimitR
 
 
 def gen(rng, n):
-    kind = 'segment' if rng.random() < .6 else 'message'
+    kind = rng.choice(['segment', 'segment', 'segment', 'message', 'message', 'field'])
     strict = rng.random() < .35
     if kind == 'segment':
         seg = rng.choice(sorted(SEG_FIELDS))
         names = ['%s_%d' % (seg, i) for i in SEG_FIELDS[seg]]
         root = seg
+    elif kind == 'field':
+        root = rng.choice(['PID_5', 'PID_3', 'PID_11'])
+        dt = {'PID_5': 'XPN', 'PID_3': 'CX', 'PID_11': 'XAD'}[root]
+        names = ['%s_%d' % (dt, i) for i in (1, 2, 3, 5)]
     else:
         names = MSG_SEGS
         root = 'ADT_A01'
@@ -68,13 +72,15 @@ def gen(rng, n):
 
 def run(h):
     """returns (impl lines, model ops, node specs, maxreps)"""
-    from hl7apy.core import Segment, Field, Message
+    from hl7apy.core import Segment, Field, Message, Component
     from hl7apy.consts import VALIDATION_LEVEL as VL
     from hl7apy.exceptions import HL7apyException
     lvl = 1 if h['strict'] else 2
     olvl = 3 - lvl
-    seglevel = h['kind'] == 'segment'
-    mk_root = (lambda: Segment(h['root'], version='2.5', validation_level=lvl)) if seglevel else \
+    seglevel = h['kind'] in ('segment', 'field')       # (no MSH child to keep, values are plain texts)
+    fieldlevel = h['kind'] == 'field'
+    mk_root = (lambda: Field(h['root'], version='2.5', validation_level=lvl)) if fieldlevel else \
+              (lambda: Segment(h['root'], version='2.5', validation_level=lvl)) if seglevel else \
               (lambda: Message(h['root'], version='2.5', validation_level=lvl))
     root, other = mk_root(), mk_root()
     objs = [root, other]                      # node number -> real object (None until identified)
@@ -86,7 +92,7 @@ def run(h):
             objs.append(r.children[0])
             nodes.append(('MSH', lvl, 25))
             init.append('A.%d.%d.1' % (i, len(objs) - 1))
-    child_cls = Field if seglevel else Segment
+    child_cls = Component if fieldlevel else Field if seglevel else Segment
 
     def new_node(name, level, ver, obj=None):
         nodes.append((name, level, int(ver.replace('.', ''))))
@@ -164,7 +170,7 @@ def run(h):
             elif k == 'addnew':
                 pending = new_node(op[1], lvl, '2.5')
                 mop = 'S.0.%d.1' % pending
-                (root.add_field if seglevel else root.add_segment)(op[1])
+                (root.add_component if fieldlevel else root.add_field if seglevel else root.add_segment)(op[1])
             elif k == 'del':
                 mop = 'D.0.%s.0' % op[1]
                 delattr(root, op[1].lower())
